@@ -68,6 +68,10 @@ func FindDpSolvers[T any](maxValue int, items []T, valueFunc func(T) int, allowO
 		value := valueFunc(item)
 		for currentValue, solver := range dp {
 			newValue := currentValue + value
+			if value > 0 && newValue < currentValue {
+				// the total does not fit an int: it is above maxValue and cannot be a key
+				continue
+			}
 			if newValue > maxValue {
 				if !allowOverOnce || (overflow > 0 && newValue > overflow) {
 					continue
